@@ -177,9 +177,10 @@ class HyperGraph:
                     ]
                     db = self.edges_size(outer_edges)
 
-                    # estimate QR cost
-                    da, db = sorted((da, db))
-                    C += da**2 * db
+                    # estimate QR cost, n.b. don't overwrite ``da`` here,
+                    # which is still needed for the other nodes
+                    dlo, dhi = sorted((da, db))
+                    C += dlo**2 * dhi
 
         if C < 0:
             raise ValueError("Negative cost!?", C)
